@@ -306,6 +306,40 @@ example : ∃ ops : List SOp,
   ⟨[.pushBack 1, .pushBack 2, .pushBack 3, .insertAt 1 9, .swap 0 3, .remove 1, .remove 7,
     .removeFront, .pushFrontNode 3, .insertNodeAt (-2) 0, .get 2, .next 1], by decide⟩
 
+/-- **iter.go: ranging while the loop body mutates the list.**  `DSt.rangeAll` / `SSt.rangeAll`
+model `for v := range l.All() { body }` (= `for e := l.Front(); e != nil; e = e.Next() { body }`,
+the code of `All`): value read, body run — arbitrary calls through handles (indices) the caller
+holds, or `break` — and `Next` evaluated AFTER the body.  `ASt.rangeAll` / `SA.rangeAll` is the
+idiomatic `container/list` loop on the specification.  From related states both yield the same
+(node, value) sequence, never panic, and end in related states: removing the current node ends
+the loop, removing its successor skips it, a node inserted after the current one is visited. -/
+theorem c13_all_loop :
+    (∀ (body : Nat → List DOp) (stop : Nat → Bool) (f i : Nat) (p : Ptr) (s : DSt) (a : ASt)
+        (acc : List (Nat × Int)), Abs s a → RangeOk body stop f i p a →
+      ∃ s', DSt.rangeAll body stop f i p s acc =
+          some (s', (ASt.rangeAll body stop f i p a acc).2.1, (ASt.rangeAll body stop f i p a acc).2.2) ∧
+        Abs s' (ASt.rangeAll body stop f i p a acc).1) ∧
+    (∀ (body : Nat → List SOp) (stop : Nat → Bool) (f i : Nat) (p : Ptr) (s : SSt) (a : SA)
+        (acc : List (Nat × Int)), SAbs s a → SRangeOk body stop f i p a →
+      ∃ s', SSt.rangeAll body stop f i p s acc =
+          some (s', (SA.rangeAll body stop f i p a acc).2.1, (SA.rangeAll body stop f i p a acc).2.2) ∧
+        SAbs s' (SA.rangeAll body stop f i p a acc).1) :=
+  ⟨range_refines, srange_refines⟩
+
+/-- Non-vacuity of `c13_all_loop`: on the list with values 1 … 5 (nodes 1 … 5 of list 0), removing
+the successor (node 2) in the first iteration yields 1 3 4 5; removing the current node yields
+1 only; inserting after the current node visits the new node. -/
+example :
+    let a : ASt := ((ASt.zero 1).run [.pushBack 0 1, .pushBack 0 2, .pushBack 0 3, .pushBack 0 4,
+      .pushBack 0 5]).1
+    ((ASt.rangeAll (fun i => if i = 0 then [.remove 0 2] else []) (fun _ => false) 100 0
+        (a.seq 0).head? a []).2.1.map (·.2) = [1, 3, 4, 5]) ∧
+    ((ASt.rangeAll (fun i => if i = 0 then [.remove 0 1] else []) (fun _ => false) 100 0
+        (a.seq 0).head? a []).2.1.map (·.2) = [1]) ∧
+    ((ASt.rangeAll (fun i => if i = 1 then [.insertAfter 0 9 2] else []) (fun _ => false) 100 0
+        (a.seq 0).head? a []).2.1.map (·.2) = [1, 2, 9, 3, 4, 5]) := by
+  decide
+
 /-- Non-vacuity: starting from two zero-value lists, `PushBack 7` on list 0, `PushFront 8` on
 list 0 and `PushBack 9` on list 1 reach (by the theorems above) a state satisfying the invariant
 with sequences `[3, 2]` and `[4]`. -/
